@@ -39,6 +39,12 @@ theorem bsLt_trans (a b c : Val) (h1 : bsLt a b = some true) (h2 : bsLt b c = so
     · simp [lkind] at hb
     · exact Or.inr ⟨ha, hc, lt_trans' hab hbc⟩
 
+theorem pyLt_eq (a b : Val) (ha : a ≠ .blank) (hb : b ≠ .blank) : pyLt a b = bsLt a b := by
+  cases a <;> cases b <;> simp_all [pyLt]
+
+theorem pyGt_eq (a b : Val) (ha : a ≠ .blank) (hb : b ≠ .blank) : pyGt a b = bsLt b a := by
+  cases a <;> cases b <;> simp_all [pyGt]
+
 /-- the key equals the lookup value in Python's order: neither is smaller -/
 def BsEq (k v : Val) : Prop := bsLt k v = some false ∧ bsLt v k = some false
 
@@ -96,14 +102,16 @@ def Before (rev : Bool) (a b : Val) : Prop := (if rev then bsLt b a else bsLt a 
 
 /-- what the loop needs of the column: every key can be compared with the value, and the column runs in one direction -/
 structure Ok (keys : List Val) (v : Val) (rev : Bool) : Prop where
+  nbv : v ≠ .blank
+  nbk : ∀ (j : Nat) k, keys[j]? = some k → k ≠ .blank
   comp : ∀ (j : Nat) k, keys[j]? = some k → (∃ r, bsLt k v = some r) ∧ (∃ r, bsLt v k = some r)
   monoL : ∀ (i j : Nat) ki kj, i < j → keys[i]? = some ki → keys[j]? = some kj → Lside rev v kj → Lside rev v ki
   monoR : ∀ (i j : Nat) ki kj, i < j → keys[i]? = some ki → keys[j]? = some kj → Rside rev v ki → Rside rev v kj
 
 theorem ok_of_sorted (kd : LKind) (keys : List Val) (v : Val) (rev : Bool) (hv : lkind v = some kd)
-    (hk : ∀ k ∈ keys, lkind k = some kd)
+    (hk : ∀ k ∈ keys, lkind k = some kd) (hnb : ∀ k ∈ v :: keys, k ≠ .blank)
     (hs : ∀ (i j : Nat) ki kj, i < j → keys[i]? = some ki → keys[j]? = some kj → Before rev ki kj) : Ok keys v rev := by
-  refine ⟨?_, ?_, ?_⟩
+  refine ⟨hnb v (List.mem_cons_self), fun j k hj => hnb k (List.mem_cons_of_mem _ (List.mem_of_getElem? hj)), ?_, ?_, ?_⟩
   · intro j k hj
     have hm : k ∈ keys := List.mem_of_getElem? hj
     exact ⟨bsLt_isSome kd k v (hk k hm) hv, bsLt_isSome kd v k hv (hk k hm)⟩
@@ -139,6 +147,8 @@ theorem bsLoop_spec (keys : List Val) (v : Val) (rev : Bool) (h : Ok keys v rev)
     rw [List.getElem?_eq_none_iff] at hnone
     omega
   | case2 first last ns nl hle mid k hk lt gt hgt hlt left hleft ih =>
+    rw [pyGt_eq k v (h.nbk _ _ hk) h.nbv] at hgt
+    rw [pyLt_eq k v (h.nbk _ _ hk) h.nbv] at hlt
     have hmid : 0 ≤ mid ∧ mid < keys.length := by constructor <;> omega
     apply ih (by omega) h1
     · cases rev <;> simp <;> omega
@@ -156,6 +166,8 @@ theorem bsLoop_spec (keys : List Val) (v : Val) (rev : Bool) (h : Ok keys v rev)
         rw [hk] at hj; cases hj; exact hL
       · exact h.monoL j mid.toNat kj k (by omega) hj hk hL
   | case3 first last ns nl hle mid k hk lt gt hgt hlt left right hleft hright ih =>
+    rw [pyGt_eq k v (h.nbk _ _ hk) h.nbv] at hgt
+    rw [pyLt_eq k v (h.nbk _ _ hk) h.nbv] at hlt
     have hmid : 0 ≤ mid ∧ mid < keys.length := by constructor <;> omega
     apply ih h0 (by omega)
     · cases rev <;> simp <;> omega
@@ -173,6 +185,8 @@ theorem bsLoop_spec (keys : List Val) (v : Val) (rev : Bool) (h : Ok keys v rev)
         rw [hk] at hj; cases hj; exact hR
       · exact h.monoR mid.toNat j k kj (by omega) hk hj hR
   | case4 first last ns nl hle mid k hk lt gt hgt hlt left right hleft hright =>
+    rw [pyGt_eq k v (h.nbk _ _ hk) h.nbv] at hgt
+    rw [pyLt_eq k v (h.nbk _ _ hk) h.nbv] at hlt
     have hmid : 0 ≤ mid ∧ mid < keys.length := by constructor <;> omega
     refine ⟨mid, mid, mid, rfl, hmid, hmid, Or.inr ⟨hmid.1, k, hk, ?_⟩⟩
     unfold BsEq
@@ -180,7 +194,7 @@ theorem bsLoop_spec (keys : List Val) (v : Val) (rev : Bool) (h : Ok keys v rev)
   | case5 first last ns nl hle mid k hk hno =>
     exfalso
     obtain ⟨⟨r1, e1⟩, ⟨r2, e2⟩⟩ := h.comp mid.toNat k hk
-    exact hno r1 r2 e1 e2
+    exact hno r1 r2 (by rw [pyLt_eq k v (h.nbk _ _ hk) h.nbv]; exact e1) (by rw [pyGt_eq k v (h.nbk _ _ hk) h.nbv]; exact e2)
   | case6 first last ns nl hgt =>
     refine ⟨-1, ns, nl, rfl, hns, hnl, Or.inl ⟨rfl, ?_⟩⟩
     intro j k hj
@@ -209,7 +223,9 @@ theorem binarySearch_spec (keys : List Val) (v : Val) (rev : Bool) (h : Ok keys 
   obtain ⟨⟨r2, e2⟩, ⟨_, _⟩⟩ := h.comp nl'.toNat keys[nl'.toNat] (List.getElem?_eq_getElem hs2)
   refine ⟨e, if r1 then -1 else ns', if r2 then -1 else nl', ?_, hres⟩
   unfold binarySearch
-  simp only [hemp, Bool.false_eq_true, if_false, hloop, List.getElem?_eq_getElem hs1, List.getElem?_eq_getElem hs2, e1, e2]
+  have g1 := pyGt_eq keys[ns'.toNat] v (h.nbk _ _ (List.getElem?_eq_getElem hs1)) h.nbv
+  have g2 := pyLt_eq keys[nl'.toNat] v (h.nbk _ _ (List.getElem?_eq_getElem hs2)) h.nbv
+  simp only [hemp, Bool.false_eq_true, if_false, hloop, List.getElem?_eq_getElem hs1, List.getElem?_eq_getElem hs2, g1, g2, e1, e2]
 
 /-! ### neighbours strictly ordered ⇒ every pair ordered -/
 
